@@ -18,11 +18,12 @@ class Unsupported(Exception):
 
 class SV:
     """symbolic value: k in int|bool|str|ref|val|seq ; t the z3 term ; h a Ty hint (or None)"""
-    __slots__ = ("k", "t", "h", "fresh", "exactcls")
+    __slots__ = ("k", "t", "h", "fresh", "exactcls", "family")
 
     def __init__(self, k, t, h=None, fresh=False):
         self.k, self.t, self.h, self.fresh = k, t, h, fresh
         self.exactcls = None
+        self.family = None
 
     def __repr__(self):
         return f"SV({self.k},{self.t},{self.h})"
@@ -628,6 +629,10 @@ class Executor:
             self.witness_heap_fact(st)
             if hint is not None and hint.kind == "list" and hint.name not in ("Any", "Local"):
                 self.typed_heap_fact(st, hint.name)
+            if hint is not None and hint.kind == "list" and hint.name in self.S.per_node_lists:
+                self.assumed_used.add("I-CFG: per-node configuration lists (" + ", ".join(sorted(self.S.per_node_lists)) +
+                                      ") have exactly one entry per service node")
+                self.assume(st, Len(self.named_heap(st, "$seq")[ref_t]) == NNODES)
             return self.named_heap(st, "$seq")[ref_t]
         key = (heap.get_id(), ref_t.get_id())
         names = st.known.setdefault("$names", {})
@@ -758,8 +763,12 @@ class Executor:
         return sv
 
     # ---------------------------------------------------------------- allocation
+    alloc_log = None
+
     def alloc(self, st, clsname, hint=None):
         r = fresh("new_" + clsname, I)
+        if self.alloc_log is not None:
+            self.alloc_log.append(r)
         alive = self.heap_get(st, "$alive")
         st.assume(z3.Not(alive[r]))
         st.assume(cls_of(r) == self.cid(clsname))
@@ -859,6 +868,17 @@ class Executor:
             # (sound: role/owner of a fresh reference are unconstrained ghost choices; its Local role
             # assumption is dropped by re-allocating an identical list object)
             r2 = self.alloc(st, "LIST" if ty.kind == "list" else "DICT")
+            famly = getattr(sv, "family", None)
+            if famly is not None and ty.kind == "list":
+                ety2 = self.S.kinds.get(ty.name)
+                if isinstance(ety2, Ty) and ety2.kind == "list":
+                    # the fresh inner lists created by the comprehension become the lists of kind ety2 held by this list
+                    F, S0f = famly
+                    jj = z3.Int(f"j!{next(_uid)}")
+                    st.assume(smt.forall([jj], z3.Implies(z3.And(0 <= jj, jj < Len(S0f)),
+                                                           z3.And(role_of(F(jj)) == self.rid(ety2.name), owner_of(F(jj)) == r2, slot_of(F(jj)) == jj)),
+                                         patterns=[F(jj)]))
+                sv.family = None
             if ty.kind == "list":
                 seq = self.heap_get(st, "$seq")
                 self.heap_set(st, "$seq", z3.Store(seq, r2, seq[sv.t]), fresh_obj=True)
@@ -887,7 +907,7 @@ class Executor:
             t = self.coerce(sv, ty, st, node, f"store-{name}")
         self.heap_set(st, name, z3.Store(self.heap_get(st, name), o.t, t))
         concs = self.concrete_subclasses(classes)
-        if any(c in self.P.classes and name not in self.P.init_assigned(c) for c in concs) or not classes:
+        if any(c in self.P.classes and name not in self.P.init_assigned(c) for c in concs) or not classes or self.fi.name == "__init__":
             has = self.heap_get(st, "has$" + name)
             self.heap_set(st, "has$" + name, z3.Store(has, o.t, True))
 
@@ -982,6 +1002,17 @@ class Executor:
                     and self.P.lookup(c, name).is_property]
         if withprop and len(withprop) == len(concs):
             return self.call_method(st, o, name, [], {}, node)
+        if withprop and self.spec_mode:
+            # contract clauses cannot fork: the property where the class has it, the plain field elsewhere, selected by class
+            rest = [c for c in concs if c not in withprop]
+            cond = z3.Or([cls_of(o.t) == self.cid(c) for c in withprop])
+            r1 = self.call_method(st, SV("ref", o.t, Ty("obj", classes=withprop)), name, [], {}, node)
+            if len(r1) != 1 or isinstance(r1[0][1], Exc):
+                raise Unsupported("forking property in a contract clause", node)
+            if self.feasible(st, z3.Not(cond)):
+                v2 = self.read_field(st, SV("ref", o.t, Ty("obj", classes=rest)), name, node)
+                return [(st, self.merge(cond, r1[0][1], v2, st))]
+            return [(st, r1[0][1])]
         if withprop:
             out = []
             rest = [c for c in concs if c not in withprop]
@@ -1497,6 +1528,9 @@ class Executor:
         self.defs_collector = defs
         saved_b = self.bound_vars
         self.bound_vars = tuple(saved_b) + (k,)
+        saved_al = self.alloc_log
+        self.alloc_log = []
+        pc0 = len(s2.pc)
         try:
             x = self.wrap_elem(At(S0, k), ety, s2)
             self.bind_target(s2, g.target, x, node)
@@ -1510,6 +1544,14 @@ class Executor:
         finally:
             self.quant_facts, self.defs_collector = saved_q, saved_d
             self.bound_vars = saved_b
+            allocated, self.alloc_log = self.alloc_log, saved_al
+        if allocated:
+            # the element expression creates objects: one family of fresh objects per position
+            if conds or self.spec_mode:
+                raise Unsupported("allocation inside a filtered comprehension / contract clause", node)
+            if saved_al is not None:
+                raise Unsupported("allocation inside a nested comprehension", node)
+            return self.comp_alloc_family(st, s2, S0, k, ev, allocated, list(s2.pc[pc0:]) + list(facts), defs, node)
         P = z3.And(conds) if conds else z3.BoolVal(True)
         E = self.to_val(ev)
         inrange = z3.And(0 <= k, k < Len(S0))
@@ -1566,8 +1608,98 @@ class Executor:
 
     comp_info = {}
 
+    def comp_alloc_family(self, st, s2, S0, k, ev, allocated, newfacts, defs, node):
+        """[f(x) for x in xs] where f allocates: position j owns its own fresh objects F_r(j) (one function per allocation
+        site r), distinct from each other and from everything alive before; whatever the element evaluation wrote to
+        them (and assumed about them) under the symbolic position k holds for every position"""
+        j = z3.Int(f"j!{next(_uid)}")
+        inr = lambda t: z3.And(0 <= t, t < Len(S0))
+        fam = {r.get_id(): z3.Function(f"fam!{next(_uid)}", I, I) for r in allocated}
+        back = z3.Function(f"famidx!{next(_uid)}", I, I)
+        tag = z3.Function(f"famtag!{next(_uid)}", I, I)
+
+        def lift(t, idx):
+            return z3.substitute(t, [(k, idx)] + [(r, fam[r.get_id()](idx)) for r in allocated])
+        alive0 = self.heap_get(st, "$alive")
+        pats = lambda idx: [fam[allocated[0].get_id()](idx)]
+        # heaps written during the element evaluation: only the fresh objects may have been written
+        alloc_ids = {r.get_id() for r in allocated}
+        updates = {}
+        for hn, final in list(s2.heap.items()):
+            base = self.heap_get(st, hn)
+            if final.eq(base):
+                continue
+            t = final
+            while not t.eq(base) and z3.is_app(t) and t.decl().kind() == z3.Z3_OP_STORE:
+                if t.arg(1).get_id() not in alloc_ids:
+                    raise Unsupported(f"a comprehension element writes to an object it did not create ({hn} at {t.arg(1)})", node)
+                t = t.arg(0)
+            if not t.eq(base):
+                raise Unsupported("a comprehension element replaces a heap (call with a frame?)", node)
+            updates[hn] = final
+        for n_, r in enumerate(allocated):
+            F = fam[r.get_id()]
+            self.assume(st, smt.forall([j], z3.Implies(inr(j), z3.And(z3.Not(alive0[F(j)]), back(F(j)) == j, tag(F(j)) == n_,
+                                                                  cls_of(F(j)) == cls_of(r))), patterns=[F(j)]))
+        for f in newfacts:
+            # ghost role of the element itself is chosen when the list is stored in a typed field (see store_field)
+            if ev.k == "ref" and f.eq(role_of(ev.t) == self.rid("Local")):
+                continue
+            self.assume(st, smt.forall([j], z3.Implies(inr(j), lift(f, j)), patterns=pats(j)))
+        for hn, final in updates.items():
+            base = self.heap_get(st, hn)
+            A = fresh("famheap", base.sort())
+            o = z3.Int(f"o!{next(_uid)}")
+            for r in allocated:
+                F = fam[r.get_id()]
+                self.assume(st, smt.forall([j], z3.Implies(inr(j), A[F(j)] == lift(z3.simplify(final[r]), j)), patterns=[F(j)]))
+            self.assume(st, smt.forall([o], z3.Implies(alive0[o], A[o] == base[o]), patterns=[A[o]]))
+            self.heap_set(st, hn, A, fresh_obj=True)
+        inrange = inr(k)
+        for (oid, kind, label, line, guards, goal) in defs:
+            self.oblige(st, kind, label + "-in-comprehension", node,
+                        smt.forall([k], z3.Implies(z3.And(inrange, *guards), goal), patterns=[At(S0, k)]))
+        R_ = fresh("comp", Seq)
+        E = self.to_val(ev)
+        self.assume(st, Len(R_) == Len(S0))
+        self.assume(st, smt.forall([j], z3.Implies(inr(j), z3.And(At(R_, j) == lift(E, j), smt.elem_fact(R_, j))), patterns=[At(R_, j)]))
+        sv = self.new_list(st, R_, ev.h if ev.k != "val" else ev.h)
+        if ev.k == "ref" and ev.h is not None and ev.h.kind == "list":
+            sv.family = (fam[ev.t.get_id()], S0) if ev.t.get_id() in fam else None
+        return sv
+
     def ev_DictComp(self, e, st):
-        raise Unsupported("dict comprehension", e)
+        """{k: f(k) for k in xs}: a new dict whose keys are exactly the members of xs and whose value at each key is f(key)
+        (f is evaluated like a list comprehension over xs: its definedness is an obligation for every position)"""
+        if len(e.generators) != 1 or e.generators[0].ifs or not isinstance(e.generators[0].target, ast.Name) \
+                or not isinstance(e.key, ast.Name) or e.key.id != e.generators[0].target.id:
+            raise Unsupported("dict comprehension other than {k: f(k) for k in xs}", e)
+        g = e.generators[0]
+        out = []
+        for s, it in self.ev(g.iter, st):
+            if isinstance(it, Exc):
+                out.append((s, it))
+                continue
+            S0, kty = self.iter_seq(it, s, e)
+            vals = self.comp_over(s, it, g, e.value, e)
+            R_ = self.seq_of(vals, s, e)
+            r = self.alloc(s, "DICT")
+            s.assume(role_of(r) == self.rid("Local"))
+            x = z3.Const(f"x!{next(_uid)}", Val)
+            j = z3.Int(f"j!{next(_uid)}")
+            hmap = fresh("dch", z3.ArraySort(Val, B))
+            vmap = fresh("dcv", z3.ArraySort(Val, Val))
+            keys = fresh("dck", Seq)
+            self.assume(s, smt.forall([x], hmap[x] == Contains(S0, x), patterns=[hmap[x]]))
+            self.assume(s, smt.forall([x], Contains(keys, x) == Contains(S0, x), patterns=[Contains(keys, x)]))
+            self.assume(s, smt.forall([j], z3.Implies(z3.And(0 <= j, j < Len(S0)), z3.And(hmap[At(S0, j)], vmap[At(S0, j)] == At(R_, j))),
+                                      patterns=[At(S0, j)]))
+            self.assume(s, Len(keys) <= Len(S0))
+            self.heap_set(s, "$dh", z3.Store(self.heap_get(s, "$dh"), r, hmap), fresh_obj=True)
+            self.heap_set(s, "$dv", z3.Store(self.heap_get(s, "$dv"), r, vmap), fresh_obj=True)
+            self.heap_set(s, "$dk", z3.Store(self.heap_get(s, "$dk"), r, keys), fresh_obj=True)
+            out.append((s, SV("ref", r, Ty("dict", name="Local"), fresh=True)))
+        return out
 
     def ev_Call(self, e, st):
         from . import calls
